@@ -142,6 +142,8 @@ enum Pre {
     HardLinked,
     /// A chain of two relative symbolic links through another directory, final target absent.
     LinkChain,
+    /// A previous object file of exactly the new file's size (and newer than the source).
+    SameSize,
 }
 
 impl Pre {
@@ -156,6 +158,7 @@ impl Pre {
             Pre::DefaultDest => "default_destination",
             Pre::HardLinked => "hard_linked",
             Pre::LinkChain => "symlink_chain",
+            Pre::SameSize => "same_size_previous_object",
         }
     }
     fn from_name(s: &str) -> Pre {
@@ -168,6 +171,7 @@ impl Pre {
             "default_destination" => Pre::DefaultDest,
             "hard_linked" => Pre::HardLinked,
             "symlink_chain" => Pre::LinkChain,
+            "same_size_previous_object" => Pre::SameSize,
             _ => Pre::Absent,
         }
     }
@@ -268,11 +272,25 @@ fn compile_once(setup: &Setup, fault: &Fault) -> (Option<(String, String)>, Proc
             Some(SENTINEL.to_vec())
         }
         (Pre::StaleTmp, _) => {
+            // Left behind by an earlier compile that was killed: under the plain name, and under
+            // the name a temporary file private to this very process id would have
             let mut tmp = dest.as_os_str().to_owned();
             tmp.push(".tmp");
             let junk: Vec<u8> = std::iter::repeat(b"STALE-TEMPORARY-FILE ".iter().copied()).flatten().take(4096).collect();
-            std::fs::write(std::path::PathBuf::from(tmp), junk).expect("stale tmp");
+            std::fs::write(std::path::PathBuf::from(tmp), &junk).expect("stale tmp");
+            crate::world_b::STALE_FOR_PID.with(|s| *s.borrow_mut() = Some((dest.clone(), junk)));
             None
+        }
+        (Pre::SameSize, _) => {
+            let mut old: Vec<u8> = match &setup.full {
+                Ok(full) => full.clone(),
+                Err(_) => SENTINEL.to_vec(),
+            };
+            if let Some(last) = old.last_mut() {
+                *last ^= 0x5a;
+            }
+            std::fs::write(&dest, &old).expect("same-size object");
+            Some(old)
         }
         (Pre::Symlink, _) => {
             let target = out_dir.join("previous-object.bin");
@@ -485,7 +503,8 @@ fn build(rng: &mut Rng) -> (Program, bool, Pre, &'static str) {
         family = "assembly_failure_at_k";
     }
     let pre = match rng.below(12) {
-        0..=3 => Pre::Sentinel,
+        0..=2 => Pre::Sentinel,
+        3 => Pre::SameSize,
         4..=7 => Pre::Absent,
         8 => Pre::StaleTmp,
         9 => Pre::Symlink,
@@ -630,6 +649,7 @@ impl Check for C08 {
             Pre::DefaultDest => "probe:default_destination_in_cwd",
             Pre::HardLinked => "probe:destination_has_second_hard_link",
             Pre::LinkChain => "probe:destination_is_symlink_chain",
+            Pre::SameSize => "probe:destination_is_same_size_previous_object",
         });
         report.nontrivial = faults.len() >= 2 || matches!(scenario.get("faults"), Some(J::Arr(_)));
         let shape = format!(
